@@ -363,34 +363,52 @@ Qed.
 
 (* _verify_path: for any network and any path none of whose components is an attribute name of the circuit
    object, the path is accepted iff it names a node / operator / variable that is present *)
-Lemma key_fallback_guarded : forall attrs k, mem k attrs = false -> key_fallback attrs k = Err EPyRates.
-Proof. intros attrs k H. unfold key_fallback. rewrite H. reflexivity. Qed.
-
-Lemma verify_path_presentb : forall attrs net p, forallb (fun k => negb (mem k attrs)) p = true ->
-  (verify_path attrs net p = Ok <-> presentb net p = true).
+Lemma key_fallback_guarded : forall fixed attrs k, fixed || negb (mem k attrs) = true ->
+  key_fallback fixed attrs k = Err EPyRates.
 Proof.
-  intros attrs net p G.
-  assert (GF : forall k, In k p -> mem k attrs = false).
-  { intros k Hk. apply negb_true_iff. exact (proj1 (forallb_forall _ _) G k Hk). }
-  destruct p as [|n [|o [|v [|x r]]]]; cbn.
-  - split; discriminate.
-  - destruct (lookup n net); [tauto|]. rewrite key_fallback_guarded by (apply GF; cbn; tauto). split; discriminate.
-  - destruct (lookup n net) as [ops|]; [|rewrite key_fallback_guarded by (apply GF; cbn; tauto); split; discriminate].
-    destruct (lookup o ops); [tauto|]. rewrite key_fallback_guarded by (apply GF; cbn; tauto). split; discriminate.
-  - destruct (lookup n net) as [ops|]; [|rewrite key_fallback_guarded by (apply GF; cbn; tauto); split; discriminate].
-    destruct (lookup o ops) as [vars|]; [|rewrite key_fallback_guarded by (apply GF; cbn; tauto); split; discriminate].
-    destruct (mem v vars); [tauto|]. rewrite key_fallback_guarded by (apply GF; cbn; tauto). split; discriminate.
-  - destruct (lookup n net) as [ops|]; [|rewrite key_fallback_guarded by (apply GF; cbn; tauto); split; discriminate].
-    destruct (lookup o ops) as [vars|]; [|rewrite key_fallback_guarded by (apply GF; cbn; tauto); split; discriminate].
-    destruct (mem v vars); [split; discriminate|]. rewrite key_fallback_guarded by (apply GF; cbn; tauto). split; discriminate.
+  intros fixed attrs k H. unfold key_fallback. destruct fixed; [reflexivity|]. cbn in *.
+  apply negb_true_iff in H. rewrite H. reflexivity.
 Qed.
 
-Theorem verify_path_partial : forall attrs net p, WFnet net -> forallb (fun k => negb (mem k attrs)) p = true ->
-  (verify_path attrs net p = Ok <-> Present net p).
-Proof. intros attrs net p W G. rewrite (verify_path_presentb attrs net p G). apply presentb_iff, W. Qed.
+Lemma verify_path_presentb : forall fixed attrs net p, fixed || forallb (fun k => negb (mem k attrs)) p = true ->
+  (verify_path_gen fixed attrs net p = Ok <-> presentb net p = true).
+Proof.
+  intros fixed attrs net p G.
+  assert (GF : forall k, In k p -> key_fallback fixed attrs k = Err EPyRates).
+  { intros k Hk. apply key_fallback_guarded. destruct fixed; [reflexivity|]. cbn in *.
+    exact (proj1 (forallb_forall _ _) G k Hk). }
+  destruct p as [|n [|o [|v [|x r]]]]; cbn.
+  - split; discriminate.
+  - destruct (lookup n net); [tauto|]. rewrite GF by (cbn; tauto). split; discriminate.
+  - destruct (lookup n net) as [ops|]; [|rewrite GF by (cbn; tauto); split; discriminate].
+    destruct (lookup o ops); [tauto|]. rewrite GF by (cbn; tauto). split; discriminate.
+  - destruct (lookup n net) as [ops|]; [|rewrite GF by (cbn; tauto); split; discriminate].
+    destruct (lookup o ops) as [vars|]; [|rewrite GF by (cbn; tauto); split; discriminate].
+    destruct (mem v vars); [tauto|]. rewrite GF by (cbn; tauto). split; discriminate.
+  - destruct (lookup n net) as [ops|]; [|rewrite GF by (cbn; tauto); split; discriminate].
+    destruct (lookup o ops) as [vars|]; [|rewrite GF by (cbn; tauto); split; discriminate].
+    destruct (mem v vars); [split; discriminate|]. rewrite GF by (cbn; tauto). split; discriminate.
+Qed.
 
+Theorem verify_path_gen_partial : forall fixed attrs net p, WFnet net ->
+  fixed || forallb (fun k => negb (mem k attrs)) p = true ->
+  (verify_path_gen fixed attrs net p = Ok <-> Present net p).
+Proof. intros fixed attrs net p W G. rewrite (verify_path_presentb fixed attrs net p G). apply presentb_iff, W. Qed.
+
+(* the model of the code selected by the switch fixed_F3 *)
+Theorem verify_path_partial : forall attrs net p, WFnet net ->
+  fixed_F3 || forallb (fun k => negb (mem k attrs)) p = true ->
+  (verify_path attrs net p = Ok <-> Present net p).
+Proof. intros attrs net p. apply verify_path_gen_partial. Qed.
+
+(* with the proposed repair the statement holds without any guard *)
+Theorem verify_path_repaired_full : forall attrs net p, WFnet net ->
+  (verify_path_gen true attrs net p = Ok <-> Present net p).
+Proof. intros attrs net p W. apply verify_path_gen_partial; [exact W | reflexivity]. Qed.
+
+(* the code as it is (attribute fallback) *)
 Definition verify_path_full_statement : Prop :=
-  forall attrs net p, WFnet net -> (verify_path attrs net p = Ok <-> Present net p).
+  forall attrs net p, WFnet net -> (verify_path_gen false attrs net p = Ok <-> Present net p).
 (* witness: the misspelt variable `vx` of an operator that happens to be called `label` *)
 Definition F3_net : network := [("a", [("label", ["v"])])].
 Definition F3_path : path := ["a"; "label"; "vx"].
@@ -398,7 +416,7 @@ Theorem verify_path_refuted : ~ verify_path_full_statement.
 Proof.
   intros H. specialize (H ["label"] F3_net F3_path).
   assert (W : WFnet F3_net) by (apply wf_netb_WF; vm_compute; reflexivity).
-  destruct (H W) as [H1 _]. assert (X : verify_path ["label"] F3_net F3_path = Ok) by (vm_compute; reflexivity).
+  destruct (H W) as [H1 _]. assert (X : verify_path_gen false ["label"] F3_net F3_path = Ok) by (vm_compute; reflexivity).
   specialize (H1 X). cbn in H1. destruct H1 as [ops [vars [Ha [Ho Hv]]]].
   destruct Ha as [Ha | []]. injection Ha as <-. destruct Ho as [Ho | []]. injection Ho as <-.
   destruct Hv as [Hv | []]. discriminate.
@@ -677,17 +695,41 @@ Lemma mixed_ok_supported : forall b s v fp e, mixed_outcome b s v fp e = Ok -> S
 Proof.
   intros b s v fp e H. unfold mixed_outcome in H.
   destruct (validate_backend_args (mixed_config b s v e)); cbn in H; try discriminate.
-  destruct v; [discriminate|].
-  destruct (mixed_fortran_runs b s fp e) eqn:M; [|apply outcome_ok_supported, H].
-  unfold mixed_fortran_runs in M. rewrite !andb_true_iff in M. destruct M as [[[Mb _] Ms] Me].
-  apply backend_eqb_eq in Mb. apply entry_eqb_eq in Me. subst b e.
-  apply supportedb_iff. destruct s; try discriminate; reflexivity.
+  destruct v; [discriminate|]. apply outcome_ok_supported, H.
 Qed.
 Lemma mixed_not_warn : forall b s v fp e, mixed_outcome b s v fp e <> Warn.
 Proof.
   intros b s v fp e H. unfold mixed_outcome in H.
   unfold validate_backend_args in H. destruct (vec _ && _); cbn in H; [discriminate|].
-  destruct v; [discriminate|]. destruct (mixed_fortran_runs b s fp e); [discriminate|]. exact (outcome_not_warn _ H).
+  destruct v; [discriminate|]. exact (outcome_not_warn _ H).
+Qed.
+
+Lemma flat_probe_ok : forall k depth net p, WFnet net -> flat_probe_result k depth net p = Ok ->
+  match k with HNodeValue => NodeValueTarget net p | _ => Path3 net p end.
+Proof.
+  intros k depth net p W H. destruct k; cbn [flat_probe_result] in H.
+  - apply (edge_endpoint_ok_iff net p W), H.
+  - destruct (Nat.leb 2 depth); [discriminate|]. apply (add_input_ok_iff net p W), H.
+  - apply (add_input_ok_iff net p W), H.
+  - apply node_value_ok_target, H.
+  - apply (proj1 (resolve_outputs_ok_iff net [p] W) H p). left. reflexivity.
+Qed.
+Lemma hier_ok_wellformed : forall k depth hnet p, WFnet (subnet hnet (firstn depth p)) ->
+  hier_result k depth hnet p = Ok -> WellFormed (PHier k depth hnet p).
+Proof.
+  intros k depth hnet p W H. unfold hier_result in H. cbn [WellFormed].
+  destruct (circuit_known hnet (firstn depth p)); [|discriminate].
+  split; [reflexivity|]. pose proof (flat_probe_ok k depth _ _ W H) as X. destruct k; exact X.
+Qed.
+Lemma hier_warn : forall k depth hnet p, hier_result k depth hnet p = Warn -> warn_suffices (PHier k depth hnet p) = true.
+Proof.
+  intros k depth hnet p H. unfold hier_result in H.
+  destruct (circuit_known hnet (firstn depth p)); [|discriminate].
+  destruct k; cbn [flat_probe_result] in H; cbn [warn_suffices]; try reflexivity.
+  - unfold edge_endpoint in H. destruct (_ && _); discriminate.
+  - apply node_value_warn_suffices in H. cbn [warn_suffices] in H.
+    destruct (skipn depth p); [discriminate | exact H].
+  - unfold resolve_outputs in H. destruct (forallb _ _); discriminate.
 Qed.
 
 (* C20: whatever returns quietly was a well-formed / supported request *)
@@ -708,6 +750,7 @@ Proof.
   - apply (resolve_outputs_ok_iff net outs W), H.
   - apply node_value_ok_target, H.
   - intros [S C]. unfold check_op_graph in H. rewrite (cycle_rejected _ _ S C) in H. discriminate.
+  - apply hier_ok_wellformed; assumption.
 Qed.
 
 Lemma impl_warn : forall p, impl p = Warn -> warn_suffices p = true.
@@ -719,7 +762,7 @@ Proof.
   - destruct (scan_vars_err_class vars false) as [X | X]; congruence.
   - unfold check_equation in H. destruct (forallb _ _); discriminate.
   - unfold node_apply in H. destruct (leftovers _ _); discriminate.
-  - unfold verify_path, key_fallback in H.
+  - unfold verify_path, verify_path_gen, key_fallback in H.
     repeat match type of H with
            | context [match ?x with _ => _ end] => destruct x; try discriminate
            end.
@@ -727,6 +770,7 @@ Proof.
   - unfold resolve_outputs in H. destruct (forallb _ _); discriminate.
   - apply node_value_warn_suffices, H.
   - unfold check_op_graph in H. destruct (toposort _ _); discriminate.
+  - apply hier_warn, H.
 Qed.
 
 Theorem malformed_is_loud : forall p, WFprobe p -> guard p = true -> ~ WellFormed p -> loud_enough p (impl p).
@@ -769,6 +813,12 @@ Proof.
   - destruct (toposort (map oname ops) (op_edges ops)) eqn:T.
     + split; [|reflexivity]. intros _ [S C]. rewrite (cycle_rejected _ _ S C) in T. discriminate.
     + split; [discriminate|]. intros H. exfalso. apply H. apply toposort_none_iff, T.
+  - rewrite andb_true_iff. destruct k.
+    + rewrite (path3b_iff _ _ W). tauto.
+    + rewrite (path3b_iff _ _ W). tauto.
+    + rewrite (path3b_iff _ _ W). tauto.
+    + rewrite (node_value_targetb_iff _ _ W). tauto.
+    + rewrite (path3b_iff _ _ W). tauto.
 Qed.
 
 (* the test applied to an observed outcome is the property *)
@@ -790,5 +840,17 @@ Proof.
   intros p W Hi NW H. pose proof (wfprobeb_WF p W) as W'.
   apply (wellformedb_iff p W') in H; [congruence | exact W' | exact Hi].
 Qed.
-Theorem C20_refuted_verify_path : ~ C20_full_statement /\ guard_path_not_attr F3_probe = false.
-Proof. split; [apply (refute_by F3_probe); vm_compute; reflexivity | vm_compute; reflexivity]. Qed.
+(* the code as it is: refuted *)
+Theorem C20_refuted_verify_path : fixed_F3 = false -> ~ C20_full_statement /\ guard_path_not_attr F3_probe = false.
+Proof.
+  intros E. split.
+  - apply (refute_by F3_probe); [vm_compute; reflexivity | | vm_compute; reflexivity].
+    unfold F3_probe, impl, verify_path. rewrite E. vm_compute. reflexivity.
+  - unfold F3_probe, guard_path_not_attr. rewrite E. vm_compute. reflexivity.
+Qed.
+(* the code with proposed_fix_C20_F3: the full statement is a theorem *)
+Theorem C20_full_when_F3_fixed : fixed_F3 = true -> C20_full_statement.
+Proof.
+  intros E p W Hi. apply (impl_ok_wellformed p W); [|exact Hi].
+  unfold guard, guard_path_not_attr. destruct p; try reflexivity; rewrite E; reflexivity.
+Qed.
